@@ -119,6 +119,21 @@ def match_finding(findings: list, prop: str, sig: dict):
             continue
         ok = True
         for k, want in fd['match'].items():
+            if k == 'features_all':
+                if not set(want) <= set(sig.get('features') or []):
+                    ok = False
+                    break
+                continue
+            if k == 'value_features_all':
+                if not set(want) <= set(sig.get('value_features') or []):
+                    ok = False
+                    break
+                continue
+            if k == 'type_kind_prefix':
+                if not str(sig.get('type_kind', '')).startswith(want):
+                    ok = False
+                    break
+                continue
             have = sig.get(k)
             if isinstance(want, list):
                 if have not in want:
